@@ -7,6 +7,7 @@ from collections import deque
 from sa.astx import call_attr, call_name, src, walk_local
 from sa.effects import accesses
 from sa.selftest import Mutant, Silent
+from sa.props._lib_k import no_crash
 from sa.source import AnalysisError, methods
 from sa.props._lib_k import Func, Interp, Mock, Nonterminating
 
@@ -334,16 +335,88 @@ def _mentions_counter(func, m, core_cls, seen=None):
     return False
 
 
+class _DeferredFactory:
+    """Model of `Deferred()`: every call makes a distinguishable mock D1, D2, ... (call-outs on them are logged)."""
+
+    def __init__(self, log):
+        self.log, self.n = log, 0
+
+    def __call__(self, *args, **kwargs):
+        self.n += 1
+        return Mock(f"D{self.n}", self.log)
+
+    def __getitem__(self, item):    # Deferred[T] in annotations evaluated at run time
+        return self
+
+
+def _guarded(what, fn):
+    """Run a piece of the harness; anything it raises that is not ours is an unreadable shape, never a checker crash."""
+    try:
+        return fn()
+    except (AnalysisError, Nonterminating):
+        raise
+    except Exception as e:
+        raise AnalysisError(f"C58: the harness could not {what}: {type(e).__name__}: {e}")
+
+
+def call_body(closure, fn_node, core, log, data=None, inputs=()):
+    """Call a transition body / factory the way automat does: (client, core[, state data], *input arguments)."""
+    pos = fn_node.args.posonlyargs + fn_node.args.args
+    need = len(pos) - len(fn_node.args.defaults)
+    args = [Mock("c", log), core]
+    if data is not None:
+        args.append(data)
+    args += list(inputs)
+    while len(args) < need:
+        args.append(Mock(pos[len(args)].arg, log))
+    return closure[fn_node.name](*args)
+
+
+def waiter_makers(mod, m, data_states):
+    """How the code under analysis itself creates a connect waiter / a stop waiter (never a frozen representation of ours):
+    -> (transition that queues a whenConnected Deferred, name of the zero-argument _Core method that queues a stop Deferred)."""
+    queue = None
+    for k, t in m.trans.items():
+        if t["inp"] == "whenConnected" and t["body"] is not None:
+            it, core, closure, log = model_core(mod, m.funcs)
+            has_data = t["src"] in data_states and not t["nodata"]
+            try:
+                call_body(closure, t["body"], core, log, Mock("data", log) if has_data else None, [7])
+            except Exception:
+                continue
+            if core.attrs.get("awaitingConnected"):
+                queue = (t, has_data)
+                break
+    stop = None
+    it, core, closure, log = model_core(mod, m.funcs)
+    for name, fn in it.globals["_Core"].methods.items():
+        if len(fn.args.args) == 1 and not name.startswith("__"):
+            it2, core2, _, _ = model_core(mod, m.funcs)
+            try:
+                it2.getattr_(core2, name)()
+            except Exception:
+                continue
+            if core2.attrs.get("stopWaiters"):
+                stop = name
+                break
+    return queue, stop
+
+
+def add_connect_waiter(maker, closure, core, log, limit):
+    t, has_data = maker
+    return call_body(closure, t["body"], core, log, Mock("data", log) if has_data else None, [limit])
+
+
 def model_core(mod, funcs, policy=None):
     """(interpreter, model _Core instance, makeMachine's local functions as interpreted closures, shared event log)."""
     it = Interp({}, budget=20000)
     log = it.log
-    it.globals.update({"Deferred": Mock("Deferred", log), "succeed": Mock("succeed", log), "fail": Mock("fail", log), "maybeDeferred": Mock("maybeDeferred", log),
+    it.globals.update({"Deferred": _DeferredFactory(log), "succeed": Mock("succeed", log), "fail": Mock("fail", log), "maybeDeferred": Mock("maybeDeferred", log),
                        "CancelledError": CancelledErrorModel, "Failure": Mock("Failure", log), "_DisconnectFactory": Mock("_DisconnectFactory", log),
                        "Logger": Mock("Logger", log), "_goodEnoughRandom": lambda: 0.0})
     mocks = dict(it.globals)
     it.load(mod)
-    it.globals.update({k: v for k, v in mocks.items() if isinstance(v, Mock) or k in ("CancelledError", "_goodEnoughRandom")})
+    it.globals.update({k: v for k, v in mocks.items() if isinstance(v, (Mock, _DeferredFactory)) or k in ("CancelledError", "_goodEnoughRandom")})
     if "_Core" not in it.globals:
         raise AnalysisError("C58: class _Core not found")
     core = it.globals["_Core"](Mock("endpoint", log), Mock("factory", log), policy or (lambda n: ("DELAY", n)), Mock("clock", log), None)
@@ -364,6 +437,7 @@ class Concrete:
         self.policy = {}    # func name -> {fa: [policy arguments]}
         self.later = {}     # func name -> {fa: [(delay, callable)]}
         self.returned = {}  # func name -> {fa: return value}
+        self.makers = None
         names = {f for f in m.factory.values() if f} | {t["body"].name for t in m.trans.values() if t["body"] is not None}
         for name in sorted(names):
             self._tabulate(name)
@@ -404,8 +478,15 @@ class Concrete:
         it, core, closure, log = model_core(self.mod, self.m.funcs, policy)
         core.attrs["failedAttempts"] = fa
         if pending:
-            core.attrs["awaitingConnected"] = [(Mock("pendingWaiter", log), None)]
-            core.attrs["stopWaiters"] = [Mock("pendingStopWaiter", log)]
+            if self.makers is None:
+                data_states = {n for n, fac in self.m.factory.items() if fac}
+                self.makers = waiter_makers(self.mod, self.m, data_states)
+            queue, stop = self.makers
+            if queue is None or stop is None:
+                raise AnalysisError("C58: could not find how the code queues a whenConnected / a stop Deferred")
+            add_connect_waiter(queue, closure, core, log, None)
+            it.getattr_(core, stop)()
+            del log[:]
         f = closure[name]
         a = f.node.args
         pos = a.posonlyargs + a.args
@@ -717,32 +798,32 @@ def check_machine(ctx, m):
 def check(ctx):
     box = {}
     with ctx.section("makeMachine declaration"):
-        box["m"] = extract(ctx)
+        box["m"] = no_crash('extract', extract, ctx)
     m = box.get("m")
     if m is not None:
         with ctx.section("state machine exploration"):
-            box["ex"] = check_machine(ctx, m)
+            box["ex"] = no_crash('check_machine', check_machine, ctx, m)
     ex = box.get("ex")
     if ex is not None:
         with ctx.section("connection attempt wiring"):
-            check_attempt(ctx, m, ex)
+            no_crash('check_attempt', check_attempt, ctx, m, ex)
         with ctx.section("waiter lists: swap-before-fire (structural)"):
-            check_swap_structure(ctx, m, ex)
+            no_crash('check_swap_structure', check_swap_structure, ctx, m, ex)
         with ctx.section("failure-limit domain"):
-            check_limit_domain(ctx, m, ex)
+            no_crash('check_limit_domain', check_limit_domain, ctx, m, ex)
         with ctx.section("waiter lists"):
-            check_core(ctx, m, ex)
+            no_crash('check_core', check_core, ctx, m, ex)
         with ctx.section("retry scheduling (structural)"):
-            check_retry_structure(ctx, m, ex)
+            no_crash('check_retry_structure', check_retry_structure, ctx, m, ex)
         with ctx.section("retry scheduling"):
-            check_retry(ctx, m, ex)
+            no_crash('check_retry', check_retry, ctx, m, ex)
     else:
         with ctx.section("waiter lists: swap-before-fire (structural)"):
-            check_swap_structure(ctx, None, None)
+            no_crash('check_swap_structure', check_swap_structure, ctx, None, None)
         with ctx.section("waiter lists (_Core only)"):
-            check_core(ctx, None, None)
+            no_crash('check_core', check_core, ctx, None, None)
     with ctx.section("ClientService wrappers"):
-        check_service(ctx)
+        no_crash('check_service', check_service, ctx)
 
 
 def check_attempt(ctx, m, ex):
@@ -973,64 +1054,89 @@ def _first_index(log, pred):
 
 
 def check_core(ctx, m, ex):
+    """Waiter handling run concretely.  Waiters are created through the code's own whenConnected / stop paths, and judged by
+    behaviour only (which Deferred fires when, with what), never by how the code represents a waiter."""
     mod = ctx.mod(CS)
+    if m is None:
+        ctx.note("waiters/*: machine declaration unreadable; the concrete waiter runs need its whenConnected path and are skipped")
+        return
+    data_states = {n for n, fac in m.factory.items() if fac}
+    queue, stop = _guarded("find how waiters are created", lambda: waiter_makers(mod, m, data_states))
+    ctx.need(queue is not None, "a whenConnected transition that queues its Deferred")
+    ctx.need(stop is not None, "a _Core method that queues a stop Deferred")
+
+    def fired_names(log):
+        return [(x[0].rsplit(".", 1)[0], x[1]) for x in log if x[0] != "setattr" and x[0].split(".")[-1] in ("callback", "errback")]
+
+    def first_fire(log):
+        return _first_index(log, lambda x: x[0] != "setattr" and x[0].split(".")[-1] in ("callback", "errback"))
+    # ---- unawait(value) / finishStopping(): every pending Deferred once, in order, list emptied before the first fires
     for meth, attr, has_val in (("unawait", "awaitingConnected", True), ("finishStopping", "stopWaiters", False)):
         ctx.func(CS, f"_Core.{meth}")
         q = QC + meth
-        it, core, closure, log = model_core(mod, m.funcs if m is not None else {})
-        w1, w2 = Mock("w1", log), Mock("w2", log)
-        core.attrs[attr] = [(w1, None), (w2, 1)] if has_val else [w1, w2]
-        del log[:]
-        try:
+
+        def scenario(meth=meth, attr=attr, has_val=has_val):
+            it, core, closure, log = model_core(mod, m.funcs)
+            if has_val:
+                made = [add_connect_waiter(queue, closure, core, log, None), add_connect_waiter(queue, closure, core, log, 1)]
+            else:
+                made = [it.getattr_(core, stop)(), it.getattr_(core, stop)()]
+            del log[:]
             it.getattr_(core, meth)(*(["VALUE"] if has_val else []))
+            return core, log, [repr(d)[1:-1] for d in made]
+        try:
+            core, log, made = _guarded(f"run _Core.{meth}", scenario)
         except Nonterminating:
             ctx.violation("waiters/each-fired-once", q, "firing the waiters does not terminate")
             continue
-        fired = _fired(log)
+        fired = fired_names(log)
         want = ("VALUE",) if has_val else (None,)
-        ctx.check([f[0] for f in fired] == ["w1.callback", "w2.callback"], "waiters/each-fired-once", q,
-                  f"the pending Deferreds are not each fired exactly once, in order (fired: {[f[0] for f in fired]})")
+        ctx.check([f[0] for f in fired] == made, "waiters/each-fired-once", q,
+                  f"the pending Deferreds {made} are not each fired exactly once, in order (fired: {[f[0] for f in fired]})")
         ctx.check(all(f[1] == want for f in fired), "waiters/each-fired-once", q + " | value", "the waiters are not fired with the given result")
         emptied = _first_index(log, lambda x: x[0] == "setattr" and x[1] is core and x[2] == attr and len(x[3]) == 0)
-        first = _first_index(log, lambda x: x[0] != "setattr" and x[0].split(".")[-1] in ("callback", "errback"))
-        ctx.check(emptied is not None and (first is None or emptied < first) and core.attrs.get(attr) == [], "waiters/swap-order-run", q,
+        first = first_fire(log)
+        ctx.check(emptied is not None and (first is None or emptied < first) and not core.attrs.get(attr), "waiters/swap-order-run", q,
                   f"self.{attr} is not emptied before the first waiter is fired: a callback that re-enters the service sees (and can re-fire) Deferreds that are being fired")
-    if m is None:
-        return
-    # the transition body for a failed attempt in the connecting state
+    # ---- failure limits: a waiter with limit L fires at failure number max(L, 1), one without never; judged over four failures
     t = next((t for t in m.trans.values() if t["body"] is not None and t["inp"] in ex.eb and t["src"] == ex.att_state), None)
     ctx.need(t, "transition body for a failed attempt in the connecting state")
     f = t["body"]
     q = QM + "." + f.name
-    it, core, closure, log = model_core(mod, m.funcs)
-    ws = [Mock(f"w{i}", log) for i in range(1, 6)]
     limits = [None, 1, 2, 3, 0]
-    core.attrs["awaitingConnected"] = list(zip(ws, limits))
-    del log[:]
-    a = f.args
-    need = len(a.args) - len(a.defaults)
-    args = [Mock("c", log), core] + [Mock(p.arg, log) for p in a.args[2:need - 1]] + ["FAILURE"]
-    closure[f.name](*args)
-    fired = _fired(log)
-    left = core.attrs.get("awaitingConnected")
-    ctx.check([x[0] for x in fired] == ["w2.callback", "w5.callback"] and all(x[1] == ("FAILURE",) for x in fired), "waiters/failure-limit", q + " | fired",
-              f"waiters whose failure limit is reached by this failure are not exactly the ones fired with it (limits None,1,2,3,0 -> fired {[x[0] for x in fired]})")
-    ok = isinstance(left, list) and [(repr(x[0]), x[1]) for x in left] == [("<w1>", None), ("<w3>", 1), ("<w4>", 2)]
-    ctx.check(ok, "waiters/failure-limit", q + " | kept", f"the remaining waiters / their remaining failure counts are wrong after one failure: {left}")
-    detached = [i for i, x in enumerate(log) if x[0] == "setattr" and x[1] is core and x[2] == "awaitingConnected"]
-    first = _first_index(log, lambda x: x[0] != "setattr" and x[0].split(".")[-1] in ("callback", "errback"))
-    ctx.check(bool(detached) and (first is None or detached[-1] < first), "waiters/swap-order-run", q,
+
+    def failures():
+        it, core, closure, log = model_core(mod, m.funcs)
+        made = [repr(add_connect_waiter(queue, closure, core, log, lim))[1:-1] for lim in limits]
+        rounds, orders = {}, []
+        has_data = t["src"] in data_states and not t["nodata"]
+        for rnd in (1, 2, 3, 4):
+            del log[:]
+            call_body(closure, f, core, log, Mock("data", log) if has_data else None, [f"FAILURE{rnd}"])
+            for name, args in fired_names(log):
+                rounds.setdefault(name, []).append((rnd, args))
+            detached = [i for i, x in enumerate(log) if x[0] == "setattr" and x[1] is core and x[2] == "awaitingConnected"]
+            orders.append((detached, first_fire(log)))
+        return made, rounds, orders, len(core.attrs.get("awaitingConnected") or [])
+    made, rounds, orders, left = _guarded(f"run {f.name} on queued waiters", failures)
+    want = {made[0]: None, made[1]: 1, made[2]: 2, made[3]: 3, made[4]: 1}
+    got = {name: (rounds[name][0][0] if name in rounds else None) for name in made}
+    ctx.check(got == want and all(len(v) == 1 and v[0][1] == (f"FAILURE{v[0][0]}",) for v in rounds.values()), "waiters/failure-limit", q + " | fired",
+              f"with failure limits None, 1, 2, 3, 0 the waiters must fail at failure number -, 1, 2, 3, 1 (each once, with that failure); observed {[got[n] for n in made]}")
+    ctx.check(left == 1, "waiters/failure-limit", q + " | kept", f"after four failures exactly the unlimited waiter must still be pending; {left} are")
+    ok = all(d and (ff is None or d[-1] < ff) for d, ff in orders if ff is not None)
+    ctx.check(ok, "waiters/swap-order-run", q,
               "awaitingConnected still contains the Deferreds being fired while their callbacks run (a re-entrant failure would fire them twice)")
-    # awaiting: the queued entry is (deferred, limit) and that deferred is returned
-    for k, t2 in m.trans.items():
-        b = t2["body"]
-        if t2["inp"] == "whenConnected" and b is not None and "W+" in ex.fx_body[k]:
-            it, core, closure, log = model_core(mod, m.funcs)
-            ret = closure[b.name](Mock("c", log), core, 7)
-            queue = core.attrs.get("awaitingConnected")
-            ok = isinstance(queue, list) and len(queue) == 1 and tuple(queue[0])[0] is ret and tuple(queue[0])[1] == 7
-            ctx.check(ok, "waiters/queued-with-limit", QM + "." + b.name, "whenConnected does not queue (the returned Deferred, failAfterFailures)")
-            break
+    # ---- whenConnected returns the Deferred that is later fired
+    def queued():
+        it, core, closure, log = model_core(mod, m.funcs)
+        ret = add_connect_waiter(queue, closure, core, log, None)
+        del log[:]
+        it.getattr_(core, "unawait")("VALUE")
+        return repr(ret)[1:-1], fired_names(log)
+    name, fired = _guarded("run the queueing transition", queued)
+    ctx.check(fired == [(name, ("VALUE",))], "waiters/queued-with-limit", QM + "." + queue[0]["body"].name,
+              "the Deferred whenConnected returns is not the one that is fired when the connection is made")
 
 
 # ---- K7: retry scheduling (concrete runs of the retry factory) -----------------------------------------------------------
@@ -1092,6 +1198,19 @@ def _move_method(body):
 _FIRE_HELPER = (CS, "def makeMachine() -> Callable[[_Core], _Client]:\n", "def _fireEach(deferreds, result):\n    for d in deferreds:\n        d.callback(result)\n\n\ndef makeMachine() -> Callable[[_Core], _Client]:\n")
 _UNAWAIT_OLD = "        self.awaitingConnected, waiting = [], self.awaitingConnected\n        for w, remaining in waiting:\n            w.callback(value)\n"
 
+# round-4 shape: waiters as small objects instead of (Deferred, limit) tuples
+_OBJ_CLASS = (CS, "@dataclass\nclass _Core:\n", "class _Pending:\n    def __init__(self, deferred, left):\n        self.deferred = deferred\n        self.left = left\n\n\n@dataclass\nclass _Core:\n")
+_OBJ_UNAWAIT = (CS, "        for w, remaining in waiting:\n            w.callback(value)\n", "        for pending in waiting:\n            pending.deferred.callback(value)\n")
+_OBJ_QUEUE = (CS, "        s.awaitingConnected.append((result, failAfterFailures))\n", "        s.awaitingConnected.append(_Pending(result, failAfterFailures))\n")
+_OBJ_LOOP_OLD = ("        for w, remaining in s.awaitingConnected:\n            if remaining is None:\n                notReady.append((w, remaining))\n            elif remaining <= 1:\n"
+                 "                ready.append(w)\n            else:\n                notReady.append((w, remaining - 1))\n")
+
+
+def _obj_loop(test):
+    return ("        for pending in s.awaitingConnected:\n            if pending.left is None:\n                notReady.append(pending)\n"
+            f"            elif {test}:\n                ready.append(pending.deferred)\n            else:\n                notReady.append(_Pending(pending.deferred, pending.left - 1))\n")
+
+
 MUTANTS = [
     Mutant("row-removed-connected-disconnected", CS, "    Connected.upon(_Client._clientDisconnected).to(Waiting).returns(None)\n", "", expect_rule="matrix/no-rejected-event"),
     Mutant("row-removed-waiting-reconnect", CS, "    Waiting.upon(_Client._reconnect).to(Connecting).returns(None)\n", "", expect_rule="matrix/no-rejected-event"),
@@ -1150,6 +1269,7 @@ MUTANTS = [
            more=[_move_method("        answer = self.timeoutForAttempt(self.failedAttempts)\n        self.failedAttempts += 1\n        return answer\n")], expect_rule="retry/delay-counts-consecutive-failures"),
     Mutant("fire-helper-over-the-live-list", CS, _UNAWAIT_OLD, "        _fireEach([w for w, _ in self.awaitingConnected], value)\n        self.awaitingConnected = []\n",
            more=[_FIRE_HELPER], expect_rule="waiters/"),
+    Mutant("waiter-objects-limit-off-by-one", CS, _OBJ_LOOP_OLD, _obj_loop("pending.left < 1"), more=[_OBJ_CLASS, _OBJ_UNAWAIT, _OBJ_QUEUE], expect_rule="waiters/failure-limit"),
     Mutant("service-start-unguarded-double", CS, "        super().startService()\n        self._machine.start()\n", "        super().startService()\n", expect_rule="service/forwards-to-machine"),
 ]
 SILENT = [
@@ -1177,5 +1297,6 @@ SILENT = [
     Silent("retry-bookkeeping-moved-to-a-core-method", CS, _MOVE_CALL[1], _MOVE_CALL[2],
            more=[_move_method("        self.failedAttempts += 1\n        return self.timeoutForAttempt(self.failedAttempts)\n")]),
     Silent("firing-through-a-module-helper", CS, _UNAWAIT_OLD, "        waiting, self.awaitingConnected = self.awaitingConnected, []\n        _fireEach([w for w, _ in waiting], value)\n", more=[_FIRE_HELPER]),
+    Silent("waiters-as-objects", CS, _OBJ_LOOP_OLD, _obj_loop("pending.left <= 1"), more=[_OBJ_CLASS, _OBJ_UNAWAIT, _OBJ_QUEUE]),
     Silent("failure-limit-rewritten", CS, "            elif remaining <= 1:\n", "            elif not remaining > 1:\n"),
 ]
